@@ -9,7 +9,7 @@ import sys
 ROOT = os.path.join(os.path.dirname(os.path.dirname(os.path.abspath(__file__))), "coq", "theories")
 
 
-STANDALONE = {"AckProofs", "LocksProofs", "LedgerProofs", "PoolProofs", "WindowProofs"}
+STANDALONE = {"AckProofs", "LocksProofs", "LedgerProofs", "PoolProofs", "WindowProofs", "MicroProofs"}
 
 
 def statements(modname):
@@ -28,6 +28,7 @@ def emit(pid, title, imports, items, examples=""):
              "    This file only pins statements: every theorem restates a lemma of proofs/ verbatim and is closed by it. *)",
              ("From CacheD Require Import Base Ledger." if "LedgerProofs" in imports else
               "From CacheD Require Import Base PoolProto." if "PoolProofs" in imports else
+              "From CacheD Require Import Base Sketch Model Window Micro.\nFrom CacheD.proofs Require Import Defs ApiProofs HistoryProofs." if "MicroProofs" in imports else
               "From CacheD Require Import Base Sketch Model Window.\nFrom CacheD.proofs Require Import Defs." if "WindowProofs" in imports else
               "From CacheD Require Import Base Locks.\nLocal Open Scope nat_scope." if "LocksProofs" in imports else
               "From CacheD Require Import Base Sketch Model%s." % (" Ack" if "AckProofs" in imports else "")),
@@ -81,6 +82,29 @@ spec("C10_window", "Expiry sweeps with overtaking: put_or_update and the worker'
 spec("C08_window", "put_or_update split at its schedule point: the two halves are the atomic call when nothing overtakes them", ["WindowProofs"], [
     ("WindowProofs", "upsert_halves_compose", None), ("WindowProofs", "atomic_schedule_refines", None),
     ("WindowProofs", "sweep_inside_upsert_window_refuted", "known_finding_sweep_inside_upsert_window"),
+])
+M = "MicroProofs"
+spec("C05_micro", "Accounting under every interleaving of the micro steps of puts, deletes and reads (calls split at every schedule point)", [M], [
+    (M, "mcall_atomic", None), (M, "mdelete_atomic", None), (M, "minv_step", None), (M, "minv_run", None),
+    (M, "micro_accounting_exact", None), (M, "racing_puts_one_wins", None),
+])
+spec("C04_micro", "Delete split at its schedule points: the mark hides the key under every interleaving of micro steps", [M], [
+    (M, "micro_soft_deleted_stays_hidden", None), (M, "mcall_atomic", None), (M, "mdelete_atomic", None),
+])
+spec("C13_micro", "shutdown() split into its stages: the flag is final and refuses every call that begins after it", [M], [
+    (M, "micro_shut_stable", None), (M, "micro_after_flag_refused", None), (M, "mcall_atomic", "shutdown_stages_compose"),
+])
+spec("C07_micro", "put split at its schedule points: the race between two puts of one key", [M], [
+    (M, "racing_puts_one_wins", None), (M, "minv_run", None), (M, "mcall_atomic", None),
+])
+spec("C08_micro", "put_or_update behind the flag check is Window.v's first half", [M], [
+    (M, "mupsert_enter_is_half1", None),
+])
+spec("C02_micro", "Reads split at their schedule points", [M], [
+    (M, "mcall_atomic", None), (M, "micro_soft_deleted_stays_hidden", "deleted_value_never_returned_micro"),
+])
+spec("C11_micro", "Writes split between building the command and sending it", [M], [
+    (M, "mcall_atomic", None), (M, "mdelete_atomic", None),
 ])
 spec("C01", "Total weight never exceeds the configured cache weight", [I, A], [
     (A, "used_bounded_step", None), (A, "used_bounded_run", None), (I, "used_nonneg", None),
